@@ -430,3 +430,166 @@ def check_sibling_steps(prog, res, rule):
                                      "operations; their conditions / state updates differ at step %d: one of them splits the "
                                      "data differently, so the result depends on the fragmentation" % (x, ref, sn, i + 1))
     return n
+
+
+# ---- SD.g: the initialiser of a state sets every scalar field that the other functions read before writing
+WHOLE_WRITERS = ("memSetZero", "memSet", "memCopy", "memMove", "memWipe")
+INIT_NAME = re.compile(r"Start\d?$|Init$|Create$")
+
+
+class InitUse(ir.Client):
+    """path state: scalar fields certainly written so far.  Collects the fields read before written (`exposed`) and,
+    at the exits that do not report failure, the fields written on every path (`must`)."""
+
+    def __init__(self, f, ids, scalars, summaries, ret_t):
+        self.f, self.ids, self.sc, self.sum = f, ids, frozenset(scalars), summaries
+        self.exposed = {}
+        self.must = None
+        self.ret_t = ret_t
+        self.exits = 0
+
+    def init(self, func):
+        return frozenset()
+
+    def _is_state(self, a):
+        a = strip(a)
+        return isinstance(a, dict) and a.get("k") == "Ref" and a.get("id") in self.ids
+
+    def eval(self, e, st, env, node):
+        w = set(st)
+
+        def rec(n):
+            if not isinstance(n, dict):
+                return
+            k = n.get("k")
+            if k == "Call":
+                if n.get("callee") == "utilAssert":
+                    return
+                for a in n["a"]:
+                    if not self._is_state(a):
+                        rec(a)
+                if any(self._is_state(a) for a in n["a"]):
+                    cn = n.get("callee")
+                    if cn in WHOLE_WRITERS and self._is_state(n["a"][0]):
+                        w.update(self.sc)
+                    elif cn in self.sum:
+                        ex, must = self.sum[cn]
+                        for F, ln in ex.items():
+                            if F not in w:
+                                self.exposed.setdefault(F, n.get("l") or node.line)
+                        w.update(must)
+                return
+            if k == "Bin" and n["op"] in ir.ASSIGN_OPS:
+                rec(n["y"])
+                F = field_of(n["x"], self.ids)
+                if F in self.sc and strip(n["x"]).get("k") == "Member":
+                    if n["op"] != "=" and F not in w:
+                        self.exposed.setdefault(F, n.get("l") or node.line)
+                    w.add(F)
+                else:
+                    rec(n["x"])
+                return
+            if k == "Un" and n["op"] in ("pre++", "pre--", "post++", "post--"):
+                F = field_of(n["e"], self.ids)
+                if F in self.sc and strip(n["e"]).get("k") == "Member":
+                    if F not in w:
+                        self.exposed.setdefault(F, n.get("l") or node.line)
+                    w.add(F)
+                    return
+            if k == "Un" and n["op"] == "&":
+                F = field_of(n["e"], self.ids)
+                if F in self.sc and strip(n["e"]).get("k") == "Member":
+                    w.add(F)          # handed out as an out-parameter
+                    return
+            if k == "Member":
+                F = field_of(n, self.ids)
+                if F in self.sc and strip(n).get("f") == F:
+                    if F not in w:
+                        self.exposed.setdefault(F, n.get("l") or node.line)
+                    return
+            for c in ir.kids(n):
+                rec(c)
+        rec(e)
+        return frozenset(w)
+
+    def assume(self, c, pol, st, env, node):
+        return st
+
+    def ret(self, e, st, env, node):
+        # exits that report failure leave a state nobody may use
+        if e is not None:
+            v = ir.eval_abs(e, env)
+            if v is not ir.TOP and v[0] == "c":
+                if self.ret_t == "bool_t" and v[1] == 0:
+                    return st
+                if self.ret_t == "err_t" and v[1] != 0:
+                    return st
+        self.exits += 1
+        self.must = set(st) if self.must is None else (self.must & set(st))
+        return st
+
+
+def check_start_initialises(prog, res, rule, prefix="src/"):
+    """every initialiser of a state family (a *Start function that reads no scalar field before writing it) writes, on
+    every path to a successful exit, each scalar field that some other function of the family reads before writing"""
+    n_obl = 0
+    from . import c07fx
+    for (rel, sn), fs in sorted(c07fx.state_families(prog).items()):
+        rec = prog.records.get(sn)
+        if rec is None:
+            continue
+        scal = {fl["n"] for fl in rec["fields"] if (fl.get("t") or "") in SCALAR_TYPES and not fl.get("count")}
+        if not scal:
+            continue
+        byname = {f.name: (f, ids) for f, ids in fs}
+        callees = {}
+        for f, ids in fs:
+            for c in ir.calls(f.body):
+                if c.get("callee") in byname and c["callee"] != f.name and \
+                        any(strip(a).get("k") == "Ref" and strip(a).get("id") in ids for a in c["a"]):
+                    callees.setdefault(f.name, set()).add(c["callee"])
+        summaries, order, seen = {}, [], set()
+
+        def visit(nm, stack=()):
+            if nm in seen or nm in stack:
+                return
+            for y in sorted(callees.get(nm, ())):
+                visit(y, stack + (nm,))
+            seen.add(nm)
+            order.append(nm)
+        for nm in sorted(byname):
+            visit(nm)
+        info = {}
+        for nm in order:
+            f, ids = byname[nm]
+            cl = InitUse(f, ids, scal, summaries, (f.d.get("ret") or {}).get("t"))
+            r = ir.run_paths(f, cl)
+            if r.truncated:
+                raise AnalysisBroken("path exploration truncated in %s" % nm)
+            info[nm] = cl
+            summaries[nm] = (dict(cl.exposed), set(cl.must or ()))
+        inits = [nm for nm in order if INIT_NAME.search(nm) and not info[nm].exposed]
+        if not inits:
+            continue
+        need = {}
+        for nm in order:
+            if nm in inits:
+                continue
+            for F, ln in info[nm].exposed.items():
+                need.setdefault(F, (nm, ln))
+        for nm in inits:
+            f, _ = byname[nm]
+            missing = sorted(F for F in need if F not in info[nm].must)
+            n_obl += len(need)
+            if missing:
+                for F in missing:
+                    g, ln = need[F]
+                    res.violation(rule, function=nm, file=rel, line=f.line, construct="%s->%s left unset" % (sn, F),
+                                  detail="%s can return success without having written the field `%s`, which %s (line %d) reads "
+                                         "before writing: the value then comes from whatever the state memory held" % (nm, F, g, ln))
+            else:
+                res.proved(rule, function=nm, file=rel, line=f.line,
+                           construct="sets %d of %d scalar fields of %s" % (len(info[nm].must), len(scal), sn),
+                           detail="every scalar field read before written by another function of the family (%s) is written on "
+                                  "every successful path" % (", ".join(sorted(need)) or "none"), nontrivial=bool(need))
+    return n_obl
